@@ -798,12 +798,17 @@ func (c *Client) Start() (addr net.Addr, err error) {
 		defer c.pipesWaitGroup.Done()
 		defer close(linesCh)
 
-		scanner := bufio.NewScanner(runner.Stdout())
+		stdout := runner.Stdout()
+		scanner := bufio.NewScanner(stdout)
 		for scanner.Scan() {
 			linesCh <- scanner.Text()
 		}
 		if scanner.Err() != nil {
 			c.logger.Error("error encountered while scanning stdout", "error", scanner.Err())
+
+			// The scanner gives up on lines longer than its buffer. Keep
+			// draining stdout so the plugin never blocks writing to it.
+			_, _ = io.Copy(io.Discard, stdout)
 		}
 	}()
 
